@@ -1,6 +1,6 @@
 ----------------------------- MODULE StyleArgs -----------------------------
 (***************************************************************************)
-(* X10: histories of set_render_method / draw with style keywords / format(+style) /   *)
+(* X10: histories of set_render_method, draw(style keywords), format(+style), *)
 (* _check_style_args calls, valid and invalid, on ONE user subclass U of a   *)
 (* style class and two instances of it (1: a still image, 2: an animated    *)
 (* one), in which nothing leaks from one call into the next.                *)
@@ -69,7 +69,8 @@ Singles == {<<A(k, v)>> : k \in {"method"}, v \in MethodVals}
            \cup {<<A("compress", v)>> : v \in CompVals}
            \cup {<<u>> : u \in Undocumented}
 
-\* combinations: everything valid (both orders), everything explicitly at its default, a default
+\* combinations: everything valid (both orders), everything explicitly at its default (without and
+\* with method=None, which is refused: D5), a default
 \* next to a real value, one wrong argument among valid ones (type / value / unknown), two wrong
 \* arguments (either error is allowed), an unknown next to a wrong one
 FullK == <<A("method", StrV(S_lines)), A("z_index", Nat16(5)), A("mix", BoolV(TRUE)), A("compress", Nat16(3))>>
@@ -77,6 +78,8 @@ FullI == <<A("method", StrV(S_WHOLE)), A("mix", BoolV(TRUE)), A("compress", Nat1
 Rev(s) == [i \in 1..Len(s) |-> s[Len(s) + 1 - i]]
 Combos ==
   {FullK, Rev(FullK), FullI, Rev(FullI),
+   <<A("z_index", Nat16(0)), A("mix", BoolV(FALSE)), A("compress", Nat16(4))>>,
+   <<A("mix", BoolV(FALSE)), A("compress", Nat16(4))>>,
    <<A("method", NoneV), A("z_index", Nat16(0)), A("mix", BoolV(FALSE)), A("compress", Nat16(4))>>,
    <<A("method", NoneV), A("mix", BoolV(FALSE)), A("compress", Nat16(4))>>,
    <<A("z_index", Nat16(0)), A("compress", Nat16(9))>>,
@@ -157,11 +160,21 @@ SetMethodRejected == \E i \in 0..NI, v \in SetVals :
 
 Targets(args) == {1} \cup (IF args \in SecondSets THEN {2} ELSE {})
 
+\* D5: None given as the `method` of a call whose other arguments are fine - documented as "the
+\* effective render method", refused with TypeError by the code and by its test-suite
+NoneMethod(args) == Given(args, "method") /\ ValOf(args, "method").t = "none"
+OnlyNoneIsWrong(f, args) ==
+  /\ NoneMethod(args) /\ "method" \in Known(f)
+  /\ BadArgs(f, args) = {i \in DOMAIN args : args[i].k = "method"}
+MethodNoneRefusedCall == \E args \in ArgSets : \E r \in {"draw", "check"} :
+  /\ MethodNoneRefused /\ OnlyNoneIsWrong(fam, args)
+  /\ Do(Op(r, IF r = "draw" THEN 1 ELSE 0, FALSE, args))
+
 DrawPlain == \E i \in 1..NI : i > 0 /\ Do(Op("draw", i, FALSE, <<>>))
 DrawWithArgs == \E args \in ArgSets \ {<<>>} : \E i \in Targets(args) :
   Accepted(fam, args) /\ Do(Op("draw", i, FALSE, args))
 DrawRejected == \E args \in ArgSets : \E i \in Targets(args) :
-  ~Accepted(fam, args) /\ Do(Op("draw", i, FALSE, args))
+  ~Accepted(fam, args) /\ ~(i = 1 /\ OnlyNoneIsWrong(fam, args)) /\ Do(Op("draw", i, FALSE, args))
 DrawAnimation == \E args \in AnimSets :
   Accepted(fam, args) /\ Do(Op("draw", 2, TRUE, args))
 DrawAnimationRejected == \E args \in AnimSets :
@@ -175,11 +188,11 @@ FormatRejected == \E args \in ArgSets : \E i \in Targets(args) :
 CheckArgs == \E args \in ArgSets :
   Accepted(fam, args) /\ Do(Op("check", 0, FALSE, args))
 CheckArgsRejected == \E args \in ArgSets :
-  ~Accepted(fam, args) /\ Do(Op("check", 0, FALSE, args))
+  ~Accepted(fam, args) /\ ~OnlyNoneIsWrong(fam, args) /\ Do(Op("check", 0, FALSE, args))
 
 Next == \/ SetClassMethod \/ SetInstanceMethod \/ SetMethodRejected
         \/ DrawPlain \/ DrawWithArgs \/ DrawRejected \/ DrawAnimation \/ DrawAnimationRejected
-        \/ FormatWithSpec \/ FormatRejected \/ CheckArgs \/ CheckArgsRejected
+        \/ FormatWithSpec \/ FormatRejected \/ CheckArgs \/ CheckArgsRejected \/ MethodNoneRefusedCall
 Spec == Init /\ [][Next]_vars
 
 (* ---- state invariants ------------------------------------------------------- *)
@@ -241,9 +254,19 @@ OutIsFunctionOfState ==
 AllArgs == {s[1] : s \in Singles}
 Spellings == {S_lines, S_LINES, S_whole, S_WHOLE, S_Whole, S_anim, S_Anim}
 
-\* every documented default is itself an acceptable value (in particular method=None)
+\* every documented default is itself an acceptable value and is dropped - except method=None,
+\* which is refused as an inappropriate type (D5)
 DefaultsAreAccepted ==
-  \A k \in Known(fam) : ArgVerdict(fam, A(k, DefaultOf(k))) = "ok" /\ EqDefault(A(k, DefaultOf(k)))
+  \A k \in Known(fam) :
+    /\ EqDefault(A(k, DefaultOf(k)))
+    /\ ArgVerdict(fam, A(k, DefaultOf(k))) = (IF k = "method" /\ MethodNoneRefused THEN "TypeError" ELSE "ok")
+\* D5 stated as a law: None is never an acceptable `method`, in any company; an omitted `method`
+\* is how a call gets the method its target resolves to
+MethodNoneIsRefused ==
+  MethodNoneRefused =>
+    /\ \A s \in ArgSets : NoneMethod(s) => ~Accepted(fam, s)
+    /\ "method" \in Known(fam) => CallVerdicts(fam, <<A("method", NoneV)>>) = {"TypeError"}
+    /\ \A res \in Methods(fam) : Den(res, <<>>).m = res
 
 \* the z-index range, said in two ways
 ZRangeFormulationsAgree ==
